@@ -609,7 +609,7 @@ Inductive outcome :=
 | OUnsupported.                 (* outside this model *)
 
 (* effects on the platform *)
-Inductive effect := EPrint (s : str) | ECls | ESleep (ns : Z) | ERead.
+Inductive effect := EPrint (s : str) | ECls | ESleep (ns : Z) | ERead | EClear (color : str).
 
 (* randFunc (since 30a294b):
      if !(upper >= 1 && upper <= 2147483647) -> panic "bad arguments"   (also NaN)
@@ -625,6 +625,60 @@ Definition rand_model_before_fix (upper : float) : outcome :=
   if PrimFloat.ltb upper 1 || PrimFloat.ltb 2147483647 upper then OPanic BadArguments
   else let n := go_int32 upper in
        if n <=? 0 then OHostCrash else ORet (VNum (float_of_Z (o_rand o n))).
+
+(* ---------- hslFunc ---------- *)
+(* fmt's %v of a float64 is strconv.FormatFloat(f, 'g', -1, 64): the shortest
+   digits that round-trip, in exponent form when exp < -4 || exp >= 6 ("if
+   shortest { eprec = 6 }"), e.g. 100000 but 1e+06. Computed here for the subset
+   that matters to hsl — non-negative integers below 10^6 are their plain
+   decimal digits; everything else (fractions, -0, big values, NaN, ±Inf) goes
+   to the oracle. *)
+Definition fmt_v_num (f : float) : str :=
+  match float_to_Z f with
+  | Some z => if negb (signbit f) && (z <? 1000000) then z_str z
+              else o_fmt_float o (spec0 118) f
+  | None => o_fmt_float o (spec0 118) f
+  end.
+
+(* the range test as the code writes it: `x < 0 || x > hi` is the error case
+   (false for NaN: NaN passes) *)
+Definition hsl_out_of_range (x hi : float) : bool := PrimFloat.ltb x 0 || PrimFloat.ltb hi x.
+(* the documented range: "must be between 0 and hi" *)
+Definition hsl_in_range (x hi : float) : bool := PrimFloat.leb 0 x && PrimFloat.leb x hi.
+
+Definition hsl_text (h sa l a : float) : str :=
+  s_ "hsl(" ++ fmt_v_num h ++ s_ "deg " ++ fmt_v_num sa ++ s_ "% " ++ fmt_v_num l ++ s_ "% / " ++ fmt_v_num a ++ s_ "%)".
+
+Section Hsl.
+Variable bad : float -> float -> bool.   (* which values are rejected: the code's test, or the documented one *)
+(* hslFunc: 1 to 4 numbers; hue in [0,360]; saturation, lightness, alpha in
+   [0,100] with defaults 100, 50, 100; result "hsl(<h>deg <s>% <l>% / <a>%)" *)
+Definition hsl_with (nums : list float) : outcome :=
+  match nums with
+  | [] => OPanic BadArguments
+  | _ :: _ :: _ :: _ :: _ :: _ => OPanic BadArguments
+  | h :: rest =>
+      if bad h 360 then OPanic BadArguments else
+      let sa := match rest with x :: _ => x | [] => 100%float end in
+      if (match rest with _ :: _ => bad sa 100 | [] => false end) then OPanic BadArguments else
+      let l := match rest with _ :: x :: _ => x | _ => 50%float end in
+      if (match rest with _ :: _ :: _ => bad l 100 | _ => false end) then OPanic BadArguments else
+      let a := match rest with _ :: _ :: x :: _ => x | _ => 100%float end in
+      if (match rest with _ :: _ :: _ :: _ => bad a 100 | _ => false end) then OPanic BadArguments else
+      ORet (VStr (hsl_text h sa l a))
+  end.
+End Hsl.
+(* the code *)
+Definition hsl_model : list float -> outcome := hsl_with hsl_out_of_range.
+(* corrected: NaN rejected like every other value outside the documented range *)
+Definition hsl_fixed : list float -> outcome := hsl_with (fun x hi => negb (hsl_in_range x hi)).
+
+Fixpoint nums_of (args : list val) : option (list float) :=
+  match args with
+  | [] => Some []
+  | VNum x :: t => option_map (cons x) (nums_of t)
+  | _ => None
+  end.
 
 (* ---------- same (testFunc) ---------- *)
 Fixpoint find_pair (k : str) (l : list (str * val)) : option val :=
@@ -666,6 +720,13 @@ Fixpoint same (want got : val) {struct got} : bool :=
   | VStr g => match want with VStr w => str_eqb w g | _ => false end
   | VBool g => match want with VBool w => Bool.eqb w g | _ => false end
   | VNone => false
+  end.
+
+(* mapVal.Delete: the pair and its key in Order disappear (keys are unique) *)
+Fixpoint remove_pair (k : str) (l : list (str * val)) : list (str * val) :=
+  match l with
+  | [] => []
+  | (k', v) :: t => if str_eqb k' k then t else (k', v) :: remove_pair k t
   end.
 
 Definition any_inner (v : val) : val := match v with VAny _ x => x | _ => v end.
@@ -834,6 +895,23 @@ Definition call_builtin (name : str) (args0 : list val) (st : bstate) : outcome 
             | [VMap _ l; VStr k] => ORet (VBool (match find_pair k l with Some _ => true | None => false end))
             | _ => OHostCrash
             end)
+    (* delFunc mutates the map in place; the model returns the map afterwards
+       (the harness reads the same variable after the call) *)
+    else if name_is name "del" then
+      pure (match args with
+            | [VMap t l; VStr k] => ORet (VMap t (remove_pair k l))
+            | _ => OHostCrash
+            end)
+    (* --- colour text, canvas clearing (the only graphics built-ins with argument checks of their own
+           that are reachable without a canvas) --- *)
+    else if name_is name "hsl" then
+      pure (match nums_of args with Some nums => hsl_model nums | None => OHostCrash end)
+    else if name_is name "clear" then
+      match args with
+      | [] => (ORet VNone, [EClear []], st)
+      | [VStr c] => (ORet VNone, [EClear c], st)
+      | _ => pure (OPanic BadArguments)
+      end
     (* --- program control --- *)
     else if name_is name "sleep" then
       match args with
@@ -1173,6 +1251,7 @@ Definition enc_effect (e : effect) : sx :=
   | ECls => Lst [Sym (s_ "cls")]
   | ESleep ns => Lst [Sym (s_ "sleep"); Int ns]
   | ERead => Lst [Sym (s_ "read")]
+  | EClear c => Lst [Sym (s_ "clear"); Str c]
   end.
 
 Definition enc_class (c : run_class) : sx :=
@@ -1199,4 +1278,30 @@ Definition builtins_case (x : sx) : sx :=
       | _, _, _, _, _, _, _ => Sym (s_ "decode-error")
       end
   | _ => Sym (s_ "decode-error")
+  end.
+
+(* ====================================================================== *)
+(** * which built-ins of the declaration table the dispatcher models *)
+
+(* the 17 drawing commands only forward their arguments to the canvas (Platform):
+   they belong to the SVG model of C19, not to this file *)
+Definition canvas_builtins : list string :=
+  ["circle"; "color"; "colour"; "dash"; "ellipse"; "fill"; "font"; "grid"; "gridn"; "line"; "linecap";
+   "move"; "poly"; "rect"; "stroke"; "text"; "width"]%string.
+
+(* one well-typed argument per fixed parameter *)
+Definition default_arg (t : ty) : val :=
+  match t with
+  | TNum => VNum 1 | TStr => VStr (s_ "a") | TBool | TAny | TNone => VBool true
+  | TArr t' => VArr t' [] | TMap t' => VMap t' []
+  | TGenArr => VArr TNum [] | TGenMap => VMap TNum []
+  end.
+
+(* does the dispatcher have a branch for this declaration (anything but OUnsupported
+   on a well-typed call)? *)
+Definition dispatched (sg : bsig) : bool :=
+  match fst (fst (call_builtin (table_oracles [] [] [] zero) (s_ (b_name sg)) (map default_arg (b_params sg))
+                               {| b_err := err_init; b_inputs := [] |})) with
+  | OUnsupported | OIllTyped => false
+  | _ => true
   end.
